@@ -7,7 +7,7 @@ from harness.demos import demo_tensor as T
 
 from deeprob.spn.models.dgcspn import DgcSpn
 
-torch.set_num_threads(4)
+torch.set_num_threads(1)
 
 
 def leaf_gradient_check(model, C, D, classes, rs):
